@@ -971,7 +971,11 @@ where
             io::copy(reader, &mut hold)?;
             hold.into_trailer()?
         };
+        #[cfg(feature = "verif-hooks")]
+        crate::verif_hooks::hit("svs.before_flush");
         guard.file_mut().flush()?;
+        #[cfg(feature = "verif-hooks")]
+        crate::verif_hooks::hit("svs.before_sync");
         guard.file_mut().sync_all()?;
         Ok((guard, digest, trailer))
     })?;
@@ -1195,7 +1199,11 @@ where
                 "svs: stream ended without a final chunk",
             )));
         }
+        #[cfg(feature = "verif-hooks")]
+        crate::verif_hooks::hit("svs.before_flush");
         guard.file_mut().flush()?;
+        #[cfg(feature = "verif-hooks")]
+        crate::verif_hooks::hit("svs.before_sync");
         guard.file_mut().sync_all()?;
         Ok(())
     })();
@@ -1230,6 +1238,8 @@ struct TempFile {
 impl TempFile {
     fn create(path: &Path) -> Result<Self, RepeError> {
         let file = std::fs::File::create(path)?;
+        #[cfg(feature = "verif-hooks")]
+        crate::verif_hooks::hit("svs.after_create");
         Ok(Self {
             path: path.to_path_buf(),
             file: Some(file),
@@ -1242,8 +1252,12 @@ impl TempFile {
 
     fn commit(mut self, final_path: &Path) -> Result<(), RepeError> {
         self.file = None; // close before rename (Windows cannot rename an open file)
+        #[cfg(feature = "verif-hooks")]
+        crate::verif_hooks::hit("svs.before_rename");
         match std::fs::rename(&self.path, final_path) {
             Ok(()) => {
+                #[cfg(feature = "verif-hooks")]
+                crate::verif_hooks::hit("svs.after_rename");
                 self.path = final_path.to_path_buf(); // committed; Drop must not remove it
                 Ok(())
             }
@@ -1293,6 +1307,8 @@ impl<'a> ChunkReader<'a> {
     }
 
     fn fetch(&mut self) -> io::Result<()> {
+        #[cfg(feature = "verif-hooks")]
+        crate::verif_hooks::hit("svs.fetch");
         let body = beve::to_vec(&NextRequest {
             stream_id: self.stream_id,
         })
@@ -1501,6 +1517,8 @@ async fn pull_loop_async<C: AsyncSvsClient>(
 ) -> Result<(), RepeError> {
     let body = next_request_body(stream_id)?;
     loop {
+        #[cfg(feature = "verif-hooks")]
+        crate::verif_hooks::hit("svs.fetch");
         let resp = client
             .svs_call(
                 ROUTE_NEXT,
@@ -1796,7 +1814,11 @@ pub async fn pull_to_file_async<C: AsyncSvsClient>(
     let (guard, bytes) = pull_consume_async(client, resource, move |mut reader| {
         let mut guard = TempFile::create(&tmp_path)?;
         let bytes = io::copy(&mut reader, guard.file_mut())?;
+        #[cfg(feature = "verif-hooks")]
+        crate::verif_hooks::hit("svs.before_flush");
         guard.file_mut().flush()?;
+        #[cfg(feature = "verif-hooks")]
+        crate::verif_hooks::hit("svs.before_sync");
         guard.file_mut().sync_all()?;
         Ok((guard, bytes))
     })
@@ -1841,7 +1863,11 @@ where
             };
             io::copy(&mut reader, &mut tee)?;
         }
+        #[cfg(feature = "verif-hooks")]
+        crate::verif_hooks::hit("svs.before_flush");
         guard.file_mut().flush()?;
+        #[cfg(feature = "verif-hooks")]
+        crate::verif_hooks::hit("svs.before_sync");
         guard.file_mut().sync_all()?;
         Ok((guard, digest))
     })
@@ -1915,7 +1941,11 @@ where
             io::copy(&mut reader, &mut hold)?;
             hold.into_trailer()?
         };
+        #[cfg(feature = "verif-hooks")]
+        crate::verif_hooks::hit("svs.before_flush");
         guard.file_mut().flush()?;
+        #[cfg(feature = "verif-hooks")]
+        crate::verif_hooks::hit("svs.before_sync");
         guard.file_mut().sync_all()?;
         Ok((guard, digest, trailer))
     })
